@@ -19,6 +19,7 @@ open Aegean.Model.C09 Real InnerProductGeometry
 -- leaves an arithmetic goal behind
 set_option linter.unusedTactic false
 set_option linter.unreachableTactic false
+set_option linter.unusedSimpArgs false
 
 namespace Aegean.C09
 open Gen.C09
